@@ -60,11 +60,18 @@ impl Extractor {
             }
 
             // Write last chunk
-            if end.byte_index > 0 {
+            // File which starts in the same piece, begins at its own offset (not at piece beginning)
+            let skip = match start.file_index == end.file_index {
+                true => start.byte_index,
+                false => 0,
+            };
+
+            if end.byte_index > skip {
                 let name = utils::hash_to_string(&self.metainfo.piece(end.file_index)) + ".piece";
                 let reader = &mut BufReader::new(File::open(name)?);
+                reader.seek(std::io::SeekFrom::Start(skip as u64))?;
 
-                let mut buffer = vec![0; end.byte_index];
+                let mut buffer = vec![0; end.byte_index - skip];
                 reader.read_exact(buffer.as_mut_slice())?;
                 writer.write_all(buffer.as_slice())?;
             }
